@@ -15,6 +15,8 @@ type Fork struct {
 	XA, XB *simnode.Node // optional pillar-less observers attached to side A / B
 	// ForkHeight is the height of the last common momentum
 	ForkHeight uint64
+	// Swing lets backers move their weight on one side only during Split
+	Swing bool
 }
 
 // NewFork builds the nodes. split chooses which pillar keys go to side A (bitmask
@@ -103,6 +105,12 @@ func (f *Fork) Split(n int, opsA, opsB bool) {
 			if opsB {
 				f.WL.G.RefreshTokens(f.B)
 				f.WL.Ops(f.B)
+			}
+			if f.Swing && w.R.T.Choose(3) == 0 {
+				// the two branches rank the pillars differently
+				side := []*simnode.Node{f.A, f.B}[w.R.T.Choose(2)]
+				FlowByName("swing-weight").Run(f.WL.G, side)
+				f.WL.G.ReceiveSome(side, 3)
 			}
 			w.Net.Flush()
 			w.StepSlot()
